@@ -732,5 +732,12 @@ def norm_shape(sh):
             name = canon
             break
     if name in ("mul", "add"):
-        args = tuple(sorted(args, key=repr))
+        # associative and commutative: flatten nested applications, then sort
+        flat = []
+        for a in args:
+            if isinstance(a, tuple) and len(a) == 2 and a[0] == name:
+                flat.extend(a[1])
+            else:
+                flat.append(a)
+        args = tuple(sorted(flat, key=repr))
     return (name, args) if len(sh) == 2 else (name, args, sh[2])
